@@ -551,7 +551,11 @@ def s5_stage_sequencing(prog):
         # the stage starts with an empty claim map and empty resource claims
         for i_, what in ((2, 'claim map'), (3, 'resource claims')):
             v = S(st[0]['vals'][i_]) if len(st[0]['vals']) > i_ else None
-            if not (isinstance(v, tuple) and v[0] == 'call' and v[1].rsplit('::', 1)[-1] in ('default', 'new', 'with_hasher', 'with_capacity_and_hasher') and not v[2]):
+            def fresh(v, d=0):
+                # Default::default() / new() / with_hasher(<fresh hasher>) / with_capacity_and_hasher(0, <fresh hasher>)
+                return isinstance(v, tuple) and d < 4 and ((v[0] == 'c' and v[1] == 0) or (v[0] == 'agg' and all(fresh(x, d + 1) for x in v[4])) or
+                                                          (v[0] == 'call' and v[1].rsplit('::', 1)[-1] in ('default', 'new', 'with_hasher', 'with_capacity_and_hasher') and all(fresh(S(x), d + 1) for x in v[2])))
+            if not fresh(v):
                 once(key + '/stage-starts-with-claims', st[0]['ln'], 'a stage must start from an empty %s (got %s)' % (what, pathsem.tstr(v)))
     r.inst(key + ': stage.run then next.run on %d path(s)' % len(rets))
     rs = [g for g in prog.fns.values() if g.path == 'world::World::<Registry, Resources>::run_schedule']
